@@ -523,6 +523,18 @@ package commitlog
 //@ func (*commitLog).SetHighWatermark serves C03, C02
 //@   requires l != nil
 //@   ensures [monotone] l.hw == (hw > old(l.hw) ? hw : old(l.hw))
+//@   ensures [a-change-wakes-every-parked-reader] hw > old(l.hw) ==> (forall r contextReader :: !(r in l.hwWaiters))
+// No lost wake-up (C03, "every reader that waits for the watermark is woken when it moves"): a change of the watermark
+// sends to EVERY parked reader and leaves the table empty (proved over the map range: visited set and exhaustion);
+// a reader is parked only while the watermark still has the value the reader saw - otherwise it is answered at once.
+// Together: a reader is in the table only between "saw watermark w" and "watermark left w", and leaving w wakes it.
+//@ func (*commitLog).notifyHWChange serves C03
+//@   requires l != nil
+//@   call send.ch requires [a-watermark-change-is-announced-as-a-change] !arg1
+//@   ensures [every-parked-reader-is-woken-and-forgotten] forall r contextReader :: !(r in l.hwWaiters)
+//@   loop 1 invariant l == old(l) && l != nil
+//@   loop 1 invariant [nobody-is-added] forall r contextReader :: (r in l.hwWaiters) ==> old(r in l.hwWaiters)
+//@   loop 1 invariant [woken-readers-are-forgotten] forall r contextReader :: visited(r) ==> !(r in l.hwWaiters)
 // waitForHW: the end of a read-only log is announced (true) only to a reader that has seen the current watermark; a
 // reader whose view of the watermark is stale is woken to re-synchronise first - otherwise it would miss the messages
 // between the watermark it saw and the current one
@@ -530,6 +542,8 @@ package commitlog
 //@   requires l != nil
 //@   assumes l.vActiveSegment != nil
 //@   call send.wait requires [end-announced-only-to-a-reader-with-the-current-watermark] !arg1 || l.hw == hw
+//@   ensures [parked-only-at-the-watermark-the-reader-saw] (forall x contextReader :: (x in l.hwWaiters) && !old(x in l.hwWaiters) ==> x == r && l.hw == hw)
+//@   ensures [nobody-else-is-forgotten] forall x contextReader :: old(x in l.hwWaiters) ==> (x in l.hwWaiters)
 // notifyReadonly (the log has been made read-only): the end of the log is announced to the parked readers only when
 // the watermark has reached the log's newest offset - a reader parked below a watermark that still lags the log end
 // has committed messages coming and must stay parked until they are committed. The newest offset is that of the LOG
